@@ -25,6 +25,7 @@ THEOREMS = [
     "Nix.C05.alias_read",
     "Nix.C05.alias_write_visible",
     "Nix.C05.alias_write_frame",
+    "Nix.C05.alias_data_write_visible",
     "Nix.C05.alias_paths_stable",
     "Nix.C05.alias_reopen",
     "Nix.C05.append_links_target_itself",
@@ -32,6 +33,7 @@ THEOREMS = [
     "Nix.C05.accept_iff_same_block",
     "Nix.C05.accept_source_iff_in_tree",
     "Nix.C05.accept_role_iff_same_block",
+    "Nix.C05.role_links_target_itself",
     "Nix.C05.accept_feature_data_iff_same_block",
     "Nix.C05.refused_unchanged",
     "Nix.C05.linked_ticks_current_data",
@@ -73,8 +75,8 @@ MANIFEST = {
                   "mutation through a random path, read back through all paths, HDF5-level dumps) and an "
                   "implementation-side oracle including id-keeping block copies.",
     "level_note": "Partial aspects: the invariant 'no range dimension has both ticks and a link' is proved to hold initially "
-                  "and to be kept (for all descriptors of the file) by set-ticks, link_data_array, remove_link and data "
-                  "writes; the lift to arbitrary histories (Nix.C05.ExclusiveInvariant, kept as a statement) also needs "
+                  "and to be kept (for all descriptors of the file) by set-ticks, link_data_array, remove_link, set-labels, unit/label "
+                  "writes and data writes; the lift to arbitrary histories (Nix.C05.ExclusiveInvariant, kept as a statement) also needs "
                   "frame facts about append_*_dimension and the structural operations, which are only checked by the "
                   "correspondence. append_effect / linked-dimension theorems assume the fresh-key condition of the graph "
                   "(node? nextKey = none; C03's reachable_wf provides it for reachable graphs). DataFrame-column links, "
@@ -835,7 +837,7 @@ def _canon_dumps(ops, outs):
 
 
 def correspondence(ctx):
-    n_hist = ctx.budget(30, 260)
+    n_hist = ctx.budget(30, 150)
     steps = ctx.budget(45, 70)
     disagreements = []
     total = 0
@@ -1481,7 +1483,7 @@ def _scene_run(ctx, rng, steps, tag):
 
 
 def oracle(ctx, broken, hints):
-    n = ctx.budget(12, 120) * (4 if broken else 1)
+    n = ctx.budget(12, 80) * (4 if broken else 1)
     steps = ctx.budget(60, 100)
     failures = []
     evals = 0
